@@ -16,7 +16,7 @@ structure HourlyByArgs (a : Args) : Prop where
   freq : a.freq = 4
   interval : 1 ≤ a.interval
   valid : a.dtstart.Valid
-  byweekno : a.byweekno = none
+  weekno : WArg a
   byeaster : a.byeaster = none
   monthday_nz : ∀ x ∈ a.bymonthday.getD [], x ≠ 0
   hours : ∃ l, a.byhour = some l ∧ ∀ x ∈ l, 0 ≤ x ∧ x ≤ 23
@@ -30,15 +30,15 @@ def hoursOf (a : Args) : List Int := a.byhour.getD []
 /-- gcd(interval, 24) as an integer -/
 def g24 (a : Args) : Int := ((Int.gcd a.interval 24 : Nat) : Int)
 
-theorem hb_dw (ha : HourlyByArgs a) : DWArgs (asDaily a) :=
-  ⟨Or.inr rfl, ha.interval, ha.valid, ha.byweekno, ha.byeaster, ha.monthday_nz⟩
+theorem hb_dw (ha : HourlyByArgs a) : DWArgs (asDaily0 a) :=
+  ⟨Or.inr rfl, ha.interval, ha.valid, rfl, ha.byeaster, ha.monthday_nz⟩
 
 abbrev hourlyByRuleOf (a : Args) (bh : List Int) (bm bs : Option (List Int)) : Rule :=
   { freq := a.freq, interval := a.interval, wkst := a.wkst.getD 0,
     dtstart := { a.dtstart with us := 0 }, tz := a.tz, count := a.count, untilDT := a.untilDT,
     bysetpos := a.bysetpos, bymonth := a.bymonth.map sortedSet, bymonthday := bymonthdayOf a,
     bynmonthday := bynmonthdayOf a, byyearday := a.byyearday.map sortedSet,
-    byeaster := none, byweekno := none,
+    byeaster := none, byweekno := a.byweekno.map sortedSet,
     byweekday := byweekdayOf a, bynweekday := bynweekdayOf a,
     byhour := some bh, byminute := bm, bysecond := bs, timeset := none }
 
@@ -77,7 +77,7 @@ theorem hb_rule (ha : HourlyByArgs a) (h : construct a = .ok r) :
       injection h2 with h2
       subst h2
       have hne0 : (a.freq == 0) = false := by simp [ha.freq]
-      refine ⟨sortBy ltInt c, bm, bs, by simp [hourlyByRuleOf, hne0, ha.byweekno, ha.byeaster, bymonthOf], ?_, ?_, h3, h4⟩
+      refine ⟨sortBy ltInt c, bm, bs, by simp [hourlyByRuleOf, hne0, ha.byeaster, bymonthOf], ?_, ?_, h3, h4⟩
       · intro he
         have : c.isEmpty = true := by
           rw [isEmpty_of_mem_iff c (sortBy ltInt c) (fun x => (mem_sortBy ltInt x c).symm), he]; rfl
@@ -104,44 +104,20 @@ theorem hb_cuts (ha : HourlyByArgs a) (h : construct a = .ok r) : CutsAgree a r 
   obtain ⟨bh, bm, bs, hr, _⟩ := hb_rule ha h
   rw [hr]; exact ⟨rfl, rfl, rfl⟩
 
-theorem hb_simple (ha : HourlyByArgs a) (h : construct a = .ok r) : SimpleRule r := by
+theorem hb_wrule (ha : HourlyByArgs a) (h : construct a = .ok r) : WRule r := by
   have hd := construct_nth_demoted a r h (by rw [ha.freq]; omega)
-  obtain ⟨bh, bm, bs, hr, _⟩ := hb_rule ha h
+  obtain ⟨bh, bm, bs, hr, _, _, _, _⟩ := hb_rule ha h
   rw [hr] at hd ⊢
-  refine ⟨rfl, ?_, rfl⟩
+  refine wrule_of a _ ha.weekno rfl rfl ?_ rfl
   dsimp only at hd ⊢
   rcases hd with hd | hd <;> rw [hd] <;> rfl
 
-theorem date_fields_asDaily_hb (ha : HourlyByArgs a) :
-    bymonthdayOf (asDaily a) = bymonthdayOf a ∧ bynmonthdayOf (asDaily a) = bynmonthdayOf a ∧
-    byweekdayOf (asDaily a) = byweekdayOf a := by
-  have hm : monthdayArg (asDaily a) = monthdayArg a := by
-    unfold monthdayArg asDaily; simp [ha.freq]
-  have hw : weekdayArg (asDaily a) = weekdayArg a := by
-    unfold weekdayArg asDaily; simp [ha.freq]
-  have hp : ∀ l, plainWeekdays (asDaily a) l = plainWeekdays a l := by
-    intro l; unfold plainWeekdays asDaily; simp [ha.freq]
-  refine ⟨by unfold bymonthdayOf; rw [hm], by unfold bynmonthdayOf; rw [hm], ?_⟩
-  unfold byweekdayOf; rw [hw]
-  cases weekdayArg a with
-  | none => rfl
-  | some l => dsimp only; rw [hp]
-
-theorem simpleOk_eq_dateOk_hb (ha : HourlyByArgs a) (h : construct a = .ok r) (ord : Int) (ho : 1 ≤ ord) :
-    simpleOk r ord = Spec.RRule.dateOk a ord := by
-  obtain ⟨bh, bm, bs, hr, _⟩ := hb_rule ha h
-  have h1 := simpleOk_rule_eq_dateOk (hb_dw ha) none none none ord ho
-  obtain ⟨e1, e2, e3⟩ := date_fields_asDaily_hb ha
-  have hs : simpleOk r ord = simpleOk (dailyRuleOf (asDaily a) none none none) ord := by
-    rw [hr]
-    unfold simpleOk
-    dsimp only
-    rw [e1, e2, e3]
-    rfl
-  rw [hs, h1]
-  unfold Spec.RRule.dateOk Spec.RRule.months Spec.RRule.monthdays Spec.RRule.weekdays Spec.RRule.nthOk
-    Spec.RRule.noDayParts Spec.RRule.wkst asDaily
-  simp [ha.freq]
+/-- **bridge**: the model's filter predicate is the specification's `dateOk` -/
+theorem hb_bridge (ha : HourlyByArgs a) (h : construct a = .ok r) (ord : Int) (ho : 1 ≤ ord) :
+    (simpleOk r ord && wclause r ord) = Spec.RRule.dateOk a ord := by
+  obtain ⟨bh, bm, bs, hr, _, _, _, _⟩ := hb_rule ha h
+  rw [hr]
+  exact wOk_eq_dateOk a _ (by rw [ha.freq]; omega) (hb_dw ha) rfl rfl rfl rfl rfl rfl rfl ord ho
 
 /-- an hour on the grid is congruent to the start's hour modulo gcd(interval, 24) -/
 theorem orbit_cong (a : Args) (ord hour : Int) (k : Int)
@@ -292,46 +268,26 @@ theorem hb_results (ha : HourlyByArgs a) (h : construct a = .ok r) (k : Nat) (st
     ∃ fl, periodResults r st = .ok (Spec.RRule.sel a (k : Int), none, fl) ∧
       (fl = true → Spec.RRule.dateOk a (curOrd st.cur) = false) ∧
       ∀ x ∈ Spec.RRule.sel a (k : Int), 0 ≤ x.ord ∧ x.ord ≤ maxOrdinal := by
-  have hs := hb_simple ha h
+  have hw := hb_wrule ha h
   obtain ⟨bh, bm, bs, hr, _⟩ := hb_rule ha h
   have hfreq : r.freq = 4 := by rw [hr]; exact ha.freq
   have hsp := construct_bysetpos a r h
   have htsok : TsOk st.timeset := by rw [hg.timeset]; exact timesOf_hb_ok ha h _ hg.hour.1 hg.hour.2
-  have hidx := index_range _ _ _ hg.valid
-  have hyo := hg.facts.yearordinal
-  have hyl := hg.facts.yearlen
   have hpos : 1 ≤ curOrd st.cur := toOrdinal_pos _ _ _ hg.facts.year_lo hg.valid
-  have hd0 := dayset_daily st.cur (by omega) hg.facts hg.valid
-  have hd : dayset r st.info st.cur =
-      .ok (intRange (curOrd st.cur - st.info.yearordinal) (curOrd st.cur - st.info.yearordinal + 1)) := by
-    rw [hd0, intRange_one]
-  have hi0 : 0 ≤ curOrd st.cur - st.info.yearordinal := by unfold curOrd; rw [hyo]; exact hidx.1
-  have hi1 : curOrd st.cur - st.info.yearordinal + 1 ≤ st.info.yearlen + 7 := by
-    unfold curOrd; rw [hyo, hyl]; omega
-  obtain ⟨fl, hres⟩ := periodResults_range_sp hs st hg.facts hg.nwd (by rw [hsp.1]; exact hsp.2) htsok _ _ hd hi0 hi1
-    (by omega) (by omega)
-  have e1 : st.info.yearordinal + (curOrd st.cur - st.info.yearordinal) = curOrd st.cur := by omega
-  have e2 : st.info.yearordinal + (curOrd st.cur - st.info.yearordinal + 1) = curOrd st.cur + 1 := by omega
-  rw [e1, e2] at hres
-  have hbridge : (intRange (curOrd st.cur) (curOrd st.cur + 1)).filter (simpleOk r) =
+  obtain ⟨fl, hres, hflag⟩ := periodResults_day_w hw st hg.facts hg.inv hg.valid (by omega)
+    (by rw [hsp.1]; exact hsp.2) htsok hle
+  have hbridge : (intRange (curOrd st.cur) (curOrd st.cur + 1)).filter (fun o => simpleOk r o && wclause r o) =
       (intRange (curOrd st.cur) (curOrd st.cur + 1)).filter (Spec.RRule.dateOk a) := by
     apply List.filter_congr
     intro o ho
-    exact simpleOk_eq_dateOk_hb ha h o (by have := (mem_intRange _ _ _).mp ho; omega)
+    exact hb_bridge ha h o (by have := (mem_intRange _ _ _).mp ho; omega)
   have hspan := hb_span ha (curOrd st.cur) st.cur.hour k hg.hour.1 hg.hour.2 hg.idx
   have hsel := sel_span_gen a k _ _ _ _ _ hspan
   refine ⟨fl, ?_, ?_, ?_⟩
   · rw [hres, hg.timeset, hsel, hbridge, hsp.1]
   · intro hf
-    obtain ⟨i, hi, hfi⟩ := periodResults_flag st _ hd0 _ _ _ hres hf
-    simp only [List.mem_singleton] at hi
-    subst hi
-    rw [dayFiltered_simple hs hg.facts hg.nwd _ hi0 (by omega), e1] at hfi
-    injection hfi with hfi
-    rw [← simpleOk_eq_dateOk_hb ha h _ hpos]
-    cases hq : simpleOk r (curOrd st.cur) with
-    | false => rfl
-    | true => rw [hq] at hfi; cases hfi
+    rw [← hb_bridge ha h _ hpos]
+    exact hflag hf
   · intro x hx
     rw [hsel] at hx
     have := sel_bounds _ _ _ _ x (applySetpos_subset _ _ x hx)
@@ -396,7 +352,7 @@ theorem hb_advance_core (ha : HourlyByArgs a) (h : construct a = .ok r) (k : Nat
     ∃ (st' : State) (s : Nat), 1 ≤ s ∧ s ≤ 24 ∧ advance r { st with count := c } fl = .ok st' ∧
       HourlyGood a r (k + s0 + s) st' ∧
       ∀ t : Nat, 1 ≤ t → t < s → (hoursOf a).contains ((st.cur.hour + X + t * a.interval) % 24) = false := by
-  have hs := hb_simple ha h
+  have hw := hb_wrule ha h
   obtain ⟨bh, bm, bs, hr, hbne, hbmem, _, _⟩ := hb_rule ha h
   obtain ⟨l, hl, hlr⟩ := ha.hours
   have hfreq : r.freq = 4 := by rw [hr]; exact ha.freq
@@ -449,17 +405,17 @@ theorem hb_advance_core (ha : HourlyByArgs a) (h : construct a = .ok r) (k : Nat
       · subst hz
         simp only [ne_eq, not_true_eq_false, ↓reduceIte, decide_false]
         rw [fixDay_false]
-        refine ⟨_, rfl, ⟨hg.facts, hg.nwd, hg.valid, ⟨hdm.2.1, hdm.2.2.1⟩, ?_, by dsimp only; rw [hspec]⟩⟩
+        refine ⟨_, rfl, ⟨hg.facts, hg.inv, hg.valid, ⟨hdm.2.1, hdm.2.2.1⟩, ?_, by dsimp only; rw [hspec]⟩⟩
         dsimp only
         have : curOrd { st.cur with hour := hr' } = curOrd st.cur := rfl
         rw [this, ek]; omega
       · simp only [ne_eq, hz, not_false_eq_true, ↓reduceIte, decide_true]
         have hcur : curOrd { st.cur with day := st.cur.day + nd, hour := hr' } = curOrd st.cur + nd := by
           unfold curOrd toOrdinal; dsimp only; omega
-        obtain ⟨st', hfix, hnw'⟩ := fixDay_ok r hs
+        obtain ⟨st', hfix, hnw'⟩ := fixDay_ok_w hw
           { cur := { st.cur with day := st.cur.day + nd, hour := hr' }, info := st.info,
             timeset := prod, count := c }
-          hm1 hm12 (by dsimp only; omega) hg.facts.year_lo hg.facts.year_hi (by dsimp only; rw [hcur]; omega) hg.nwd
+          true hm1 hm12 (by dsimp only; omega) hg.facts.year_lo hg.facts.year_hi (by dsimp only; rw [hcur]; omega) hg.inv
         have sp := fixDay_spec r _ st' hfix hm1 hm12 (by dsimp only; omega) hg.facts
         obtain ⟨e, v, f', eh, _, _, _, ts⟩ := sp
         refine ⟨st', hfix, ⟨f', hnw', v, by rw [eh]; exact ⟨hdm.2.1, hdm.2.2.1⟩, ?_, by rw [ts, eh]; dsimp only; rw [hspec]⟩⟩
@@ -549,10 +505,10 @@ theorem hb_next (ha : HourlyByArgs a) (h : construct a = .ok r) (k : Nat) (st : 
 
 theorem hb_init (ha : HourlyByArgs a) (h : construct a = .ok r) :
     ∃ st0, init r = .ok st0 ∧ HourlyGood a r 0 st0 ∧ st0.count = r.count := by
-  have hs := hb_simple ha h
+  have hw := hb_wrule ha h
   have hv := ha.valid
   unfold DT.Valid ValidDate at hv
-  obtain ⟨info, hre, hnw, _, _⟩ := rebuild_simple r hs a.dtstart.y a.dtstart.m hv.1.1 hv.1.2.1
+  obtain ⟨info, hre, hnw⟩ := rebuild_w hw a.dtstart.y a.dtstart.m hv.1.1 hv.1.2.1
   obtain ⟨bh, bm, bs, hr, hbne, hbmem, _, _⟩ := hb_rule ha h
   have hd : r.dtstart = { a.dtstart with us := 0 } := by rw [hr]
   have hf : r.freq = 4 := by rw [hr]; exact ha.freq
